@@ -13,3 +13,8 @@ include!(concat!(env!("OUT_DIR"), "/ops_macros.rs"));
 impl_clamp_float!{Sym}
 lerp_impl_float!{Sym}
 wrap_impl_float!{Sym}
+
+use crate::symint::{SymS, SymU};
+impl_clamp_integer!{SymS SymU}
+wrap_impl_sint!{SymS}
+wrap_impl_uint!{SymU}
